@@ -23,7 +23,7 @@ def run(ctx):
                 "distinct = distinct case lines")
     ctx.assumptions += ["rs2v preserves the meaning of the translated Rust subset (validated by the raw-word correspondence)",
                         "rustc/LLVM compile the field code as written; `unsafe` byte views (as_bytes/elements_as_bytes) are modelled as LE words"]
-    ok_tr = ctx.rs2v(["F64"])
+    ok_tr = ctx.rs2v(["F64", "F62", "F128"])
     ctx.audit_sources()
     ctx.coq_build("C07")
     if not quick:
@@ -35,7 +35,7 @@ def run(ctx):
         hb = ctx.build_harness("c07", profile)
         if hb and drv:
             rc, out, _ = vcheck.sh([hb, "corr", str(ctx.seed), str(n)], timeout=600)
-            ctx.correspondence(f"f64-raw-words:{profile}", out.split("\n"), drv, compare=cmp)
+            ctx.correspondence(f"raw-words-f64-f62-f128:{profile}", out.split("\n"), drv, compare=cmp)
         # property-level falsifier (independent oracle); more effort when an obligation is broken
         if hb:
             budget = (3000 if quick else 100000) * (4 if ctx.broken() else 1)
